@@ -19,6 +19,17 @@ def random_parent_array(rng: random.Random, n: int, kind: Optional[str] = None) 
     for i in range(1, n):
         if kind == "spider":          # `legs` chains hanging from the root (deep leaves in several branches)
             par.append(0 if i <= legs else i - legs)
+        elif kind == "twig":          # a spine with side branches of depth 2 hanging off inner spine nodes
+            # nodes are added in groups of three: spine node s, then twig t1 (child of s), t2 (child of t1)
+            g, r = divmod(i, 3)
+            if r == 0:
+                par.append(i - 3)          # next spine node under the previous spine node
+            elif r == 1:
+                par.append(i - 1)          # first twig node under the spine node
+            else:
+                par.append(i - 1)          # second twig node under the first
+        elif kind == "bush":          # root with >= 3 children, some of them with children of their own
+            par.append(0 if i <= 3 else rng.randrange(1, i))
         elif kind == "chain":
             par.append(i - 1)
         elif kind == "star":
